@@ -2,7 +2,7 @@
    Only statements; proofs are in Proofs/CrashProof.v.  Model/Crash.v is what is durable of a key between the filesystem
    steps of the repaired code; props/c11.py kills the real gateway at every verifhook site and compares. *)
 From Coq Require Import List Arith Bool.
-From VGW Require Import Model.Crash Proofs.CrashProof Model.CrashVersions Proofs.CrashVersionsProof Model.CrashDirObj Proofs.CrashDirObjProof.
+From VGW Require Import Model.Crash Proofs.CrashProof Model.CrashVersions Proofs.CrashVersionsProof Model.CrashDirObj Proofs.CrashDirObjProof Model.CrashPromote Proofs.CrashPromoteProof.
 Import ListNotations.
 
 (* a request killed after any number k of its steps leaves the key in its complete previous state or in the complete new
@@ -74,6 +74,34 @@ Theorem C11_directory_object_overwrite_refuted :
             end.
 Proof. exact overwrite_not_atomic. Qed.
 Print Assumptions C11_directory_object_overwrite_refuted.
+
+(* DeleteObject ?versionId=<the current version> in a versioned bucket (Model/CrashPromote.v): wherever it is killed, the key shows
+   either exactly what it showed before or exactly its other versions with the newest of them current; run to its end it shows
+   the latter *)
+Theorem C11_delete_current_version_atomic : forall s c k,
+  pcurrent s = Some c -> p_attrs c = true -> NoDup (map fst (parchive s)) ->
+  let s' := prun_killed (promote_steps s) s k in
+  (pshown s' = pshown s /\ preads s' = preads s) \/
+  (pshown s' = remaining s c /\ preads s' = reads_after s c).
+Proof. exact promote_atomic. Qed.
+Print Assumptions C11_delete_current_version_atomic.
+
+Theorem C11_delete_current_version_completes : forall s c,
+  pcurrent s = Some c -> p_attrs c = true -> NoDup (map fst (parchive s)) ->
+  let s' := prun_killed (promote_steps s) s (length (promote_steps s)) in
+  pshown s' = remaining s c /\ preads s' = reads_after s c.
+Proof. exact promote_completes. Qed.
+Print Assumptions C11_delete_current_version_completes.
+
+(* the order of the code before the repair (KNOWN_FINDINGS "fixed" C11 cccb06e): the current file removed first, the promoted
+   version's attributes written last *)
+Theorem C11_remove_first_order_refuted :
+  let s := {| pcurrent := Some {| p_data := 8; p_vid := 2; p_attrs := true |}; parchive := [(1, 7)] |} in
+  pshown s = [(2, 8); (1, 7)] /\
+  pshown (prun_killed (promote_steps_old s) s 1) = [] /\ preads (prun_killed (promote_steps_old s) s 1) = None /\
+  pshown (prun_killed (promote_steps_old s) s 3) = [(0, 7); (1, 7)].
+Proof. exact old_order_not_atomic. Qed.
+Print Assumptions C11_remove_first_order_refuted.
 
 Example C11_example :
   let s := {| dentry := Some 1; leftovers := []; bucket_exists := true |} in
